@@ -46,6 +46,7 @@ enum P {
   B8U64,
   B24D,
   DiscB16,
+  AB8D,
 }
 
 fn prog(p: P, t: usize) -> Vec<TOp> {
@@ -64,6 +65,7 @@ fn prog(p: P, t: usize) -> Vec<TOp> {
     P::B8U64 => vec![B(8), U64],
     P::B24D => vec![B(24), DropOwn],
     P::DiscB16 => vec![Discard, B(16)],
+    P::AB8D => vec![AB(8), DropOwn],
   }
 }
 
@@ -177,7 +179,7 @@ pub fn check(id: &str, tier: Tier) -> i32 {
     bounds.push(json!({"kind": "values created concurrently from one shared arena value (count 1)", "harnesses": scount, "pair_bound": b2, "triple_bound": b3}));
   }
   if id != "C13" {
-    let menu2: Vec<P> = if id == "C07" { vec![P::B16, P::B24, P::U64, P::AB8, P::B16D, P::U64D, P::Dp, P::B16B16, P::DpB16, P::Disc, P::B8U64, P::DiscB16] } else { vec![P::B16, P::B24, P::U64, P::AB8, P::B16D, P::U64D, P::Dp, P::B16B16, P::DpB16, P::B8U64, P::B24D] };
+    let menu2: Vec<P> = if id == "C07" { vec![P::B16, P::B24, P::U64, P::AB8, P::B16D, P::U64D, P::Dp, P::B16B16, P::DpB16, P::Disc, P::B8U64, P::DiscB16] } else { vec![P::B16, P::B24, P::U64, P::AB8, P::B16D, P::U64D, P::Dp, P::B16B16, P::DpB16, P::B8U64, P::B24D, P::AB8D] };
     let menu3: Vec<P> = if id == "C07" { vec![P::B16, P::B24, P::U64, P::B16D, P::Dp, P::Disc] } else { vec![P::B16, P::B24, P::U64, P::AB8, P::B16D, P::Dp] };
     let lists: Vec<Fl> = vec![Fl::Optimistic, Fl::Pessimistic];
     let with_none: Vec<Fl> = if id == "C07" { lists.clone() } else { vec![Fl::Optimistic, Fl::Pessimistic, Fl::None] };
